@@ -39,7 +39,7 @@ MANIFEST = {
 
 
 def plan(tier):
-    t = 300 if tier == "quick" else 1200
+    t = 300 if tier == "quick" else 900
     return [
         CH("shortest_reexport", "harness.c08", "shortest_reexport", [f"0:{a},1:{b}" for a in range(2) for b in range(2)], timeout=t,
            desc="re-export choice independent of set order", stubs=["set -> PermSet in the repository modules"], symbolic="permutation index + shape"),
